@@ -43,6 +43,17 @@ def run(ctx):
         for other in fixed[3:9]:
             for st in progsuite.STORES:
                 add_seq(st, [other, e, fixed[3]], interleave=False); add_seq(st, [e, other], interleave=True); add_seq(st, [other, e], interleave=False)
+    # LONG sequences: many programs in one object, so that every table of the object (instructions, jump table, symbol table,
+    # data) grows more than once while earlier programs are already in place — symbol-heavy, jump-heavy and instruction-heavy mixes
+    symprogs = [f'(:s{i}a = 1, :s{i}b = {i}, :s{i}c = 3) . :s{i}b' for i in range(10)]
+    jumpprogs = [f'{i} > 2 ?> {i} |> ({i} < 1 ?> 0 |> {i} + 1)' for i in range(10)]
+    longprogs = [' + '.join(str(i + j) for j in range(7)) for i in range(8)]
+    callprogs = [f'{{ $ * {i + 2} }} <~ {i}' for i in range(8)]
+    for st in progsuite.STORES:
+        add_seq(st, symprogs, interleave=False); add_seq(st, symprogs[:6] + jumpprogs[:6], interleave=True)
+        add_seq(st, jumpprogs, interleave=False); add_seq(st, longprogs + symprogs[:4], interleave=False)
+        add_seq(st, [x for pair in zip(symprogs, longprogs, callprogs) for x in pair], interleave=True)
+        add_seq(st, callprogs + jumpprogs[:4] + symprogs[:5], interleave=False)
     for _ in range(400 if ctx.tier == 'quick' else 6000):
         k = rnd.randint(2, 4)
         add_seq(rnd.choice(progsuite.STORES), [rnd.choice(pool + fixed) for _ in range(k)], interleave=rnd.random() < 0.6)
@@ -135,7 +146,7 @@ def run(ctx):
         stats['COMPILE2!=DUMP2'] = nd
         ctx.evaluations += len(dump)
         ctx.oblige('suite COMPILE2 (real build of several programs into one object = chained compileInto)', 'suite', nd == 0, f'{nd} difference(s)')
-    ctx.rule = ('MULTI cases: sequences of 2..4 programs built into one data object in every order (fixed small set) and random sequences of generated programs, on both stores, with executions of earlier programs interleaved between the builds; '
+    ctx.rule = ('MULTI cases: sequences of 2..4 programs built into one data object in every order (fixed small set), random sequences of generated programs and long sequences (10-24 symbol-, jump-, instruction- and call-heavy programs: every table of the object grows more than once), on both stores, with executions of earlier programs interleaved between the builds; '
                 'oracle: each build leaves every earlier instruction (constants rendered), every earlier jump entry unchanged and its own jumps / expression values / jump targets lie in its own ranges; each program run from its reported entry gives the same value and host-call trace as when built alone into a fresh object; distinct = distinct (store, program sequence).')
     ctx.suites = {'MULTI': len(cases), 'stand-alone RUN': len(solo), 'outcomes': stats}
     for cid, st, srcs in seqs[:: max(1, len(seqs) // 5)][:5]:
